@@ -51,7 +51,8 @@ Inductive op :=
 | SetParams (en : bool) (minl : Z)
 | Liquidate (t : Z) (from to : N) (x : Z)                (* MsgLiquidate at block time t *)
 | Redeem (t : Z) (from to : N) (d : N) (x : Z)           (* MsgRedeem at block time t *)
-| Xfer (from to : N) (d : N) (x : Z).                    (* liquid tokens change hands *)
+| Xfer (from to : N) (d : N) (x : Z)                     (* liquid tokens change hands *)
+| Probe (ts : list Z).                                   (* the block time advances through ts; no message *)
 
 (* result codes, as the harness maps the Go errors *)
 Definition OK : N := 0.
@@ -180,10 +181,63 @@ Definition step (fixed : bool) (s : st) (o : op) : st * N :=
   | Liquidate t from to x => liquidate s t from to x
   | Redeem t from to d x => redeem fixed s t from to d x
   | Xfer from to d x => xfer s from to d x
+  | Probe _ => (s, OK)
   end.
 
 Definition run (fixed : bool) (ops : list op) (s : st) : st :=
   fold_left (fun s o => fst (step fixed s o)) ops s.
+
+(** ---- obligations (specification side, not code) ----
+    What the lockup schedules of a history demand of every account, written down
+    independently of the accounts' records: setting up a vesting account creates
+    the obligation (start, lockup periods); a liquidation takes the new liquid
+    token's schedule (as recorded at its creation) away from the liquidating
+    account; a redeem adds the redeemed share of the token's recorded schedule,
+    at the token's start time, to the recipient.  An obligation (a, sign, start,
+    ps) demands at time tau that account a holds sign * (total ps - ev start ps
+    tau) locked. *)
+Definition obl : Type := N * Z * Z * list period.
+
+Definition step_obl (s : st) (o : op) (s' : st) (r : N) : list obl :=
+  if negb (r =? OK)%N then [] else
+  match o with
+  | MkVest a start lock _ => [(a, 1, start, lock)]
+  | Liquidate _ from _ _ =>
+      match denoms s' !! counter s with
+      | Some den => [(from, -1, d_start den, d_periods den)]
+      | None => []
+      end
+  | Redeem _ _ to d x =>
+      match denoms s !! d with
+      | Some den => match subtract_amount (d_periods den) x with
+                    | Some (_, diff) => [(to, 1, d_start den, diff)]
+                    | None => []
+                    end
+      | None => []
+      end
+  | _ => []
+  end.
+
+Fixpoint run_obl (fixed : bool) (ops : list op) (s : st) (g : list obl) : st * list obl :=
+  match ops with
+  | [] => (s, g)
+  | o :: r => let '(s', res) := step fixed s o in run_obl fixed r s' (g ++ step_obl s o s' res)
+  end.
+
+Fixpoint need (g : list obl) (a : N) (tau : Z) : Z :=
+  match g with
+  | [] => 0
+  | (a', sg, start, ps) :: r =>
+      (if (a' =? a)%N then sg * (total ps - ev start ps tau) else 0) + need r a tau
+  end.
+
+(** every redeem of the history happened at or before tau *)
+Fixpoint redeems_by (ops : list op) (tau : Z) : Prop :=
+  match ops with
+  | [] => True
+  | Redeem t _ _ _ _ :: r => t <= tau /\ redeems_by r tau
+  | _ :: r => redeems_by r tau
+  end.
 
 (** ---- observation, as the harness prints it ---- *)
 Notation acct_obs := (option (Z * Z * Z * list (Z * Z) * list (Z * Z))) (only parsing).
@@ -196,14 +250,28 @@ Record obs := mkobs {
   o_counter : N;
   o_denoms : list (N * (Z * Z * list (Z * Z)));      (* registry: id, start, end, periods *)
   o_liq : list (N * N * Z);                          (* denom, holder, tokens (non-zero) *)
-  o_supply : list (N * Z)                            (* denom, supply (non-zero) *)
+  o_supply : list (N * Z);                           (* denom, supply (non-zero) *)
+  o_locked : list (list Z)                           (* per block time of the op: LockedCoins of account 0 .. na-1 *)
 }.
 Global Instance obs_eq_dec : EqDecision obs.
 Proof. solve_decision. Defined.
 
 Definition nseq (n : nat) : list N := map N.of_nat (seq 0 n).
 
-Definition observe (na : nat) (s : st) (res : N) : obs :=
+(** the block times at which an op makes the harness read LockedCoins *)
+Definition op_times (o : op) : list Z :=
+  match o with
+  | Liquidate t _ _ _ => [t]
+  | Redeem t _ _ _ _ => [t]
+  | Probe ts => ts
+  | _ => []
+  end.
+
+(** ClawbackVestingAccount.LockedCoins of every account (0 for an ordinary one) at time t *)
+Definition locked_row (na : nat) (s : st) (t : Z) : list Z :=
+  map (fun a => match accts s !! a with Some v => locked_coins v t | None => 0 end) (nseq na).
+
+Definition observe (na : nat) (s : st) (res : N) (ts : list Z) : obs :=
   let ds := nseq (N.to_nat (counter s)) in
   mkobs res
     (map (fun a => zget (bank s) a) (nseq na))
@@ -219,7 +287,8 @@ Definition observe (na : nat) (s : st) (res : N) : obs :=
                         end) ds)
     (flat_map (fun d => flat_map (fun a =>
         let v := hold s d a in if v =? 0 then [] else [(d, a, v)]) (nseq na)) ds)
-    (flat_map (fun d => let v := zget (supply s) d in if v =? 0 then [] else [(d, v)]) ds).
+    (flat_map (fun d => let v := zget (supply s) d in if v =? 0 then [] else [(d, v)]) ds)
+    (map (locked_row na s) ts).
 
 Definition NA : nat := 4.
 
@@ -229,7 +298,7 @@ Fixpoint check_from (fixed : bool) (i : nat) (s : st) (h : list (op * obs)) : op
   | [] => None
   | (o, ob) :: r =>
       let '(s', res) := step fixed s o in
-      if bool_decide (observe NA s' res = ob) then check_from fixed (S i) s' r else Some i
+      if bool_decide (observe NA s' res (op_times o) = ob) then check_from fixed (S i) s' r else Some i
   end.
 Definition check_case (fixed : bool) (h : list (op * obs)) : option nat := check_from fixed 0 init h.
 
